@@ -17,14 +17,26 @@ let rule = "scenarios (parameters drawn per case): writers (pooled or not, refus
 let count_dir d = try Array.length (Sys.readdir d) with _ -> 0
 let fd_count () = count_dir "/proc/self/fd" - 1
 let thread_count () = count_dir "/proc/self/task"
+(* file mappings of our files: lines of /proc/self/maps naming them, adjacent lines of one file counted once (a mapping
+   that posix_madvise split into two areas with different advice is still one mapping) *)
 let map_count (needle : string) =
   let ic = open_in "/proc/self/maps" in
   let n = ref 0 in
+  let prev_end = ref 0 and prev_inode = ref "" and prev_next_off = ref 0 in
   (try while true do
        let l = input_line ic in
        let has s sub = let ls = String.length s and lb = String.length sub in
          let rec go i = i + lb <= ls && (String.sub s i lb = sub || go (i + 1)) in go 0 in
-       if has l needle || has l ".mtbl." then incr n
+       if has l needle || has l ".mtbl." then begin
+         (* start-end perms offset dev inode path *)
+         let f = List.filter (fun x -> x <> "") (String.split_on_char ' ' l) in
+         let hexv x = (try int_of_string ("0x" ^ x) with _ -> -1) in
+         let (st, en) = (match String.split_on_char '-' (List.nth f 0) with [ a; b ] -> (hexv a, hexv b) | _ -> (-1, -1)) in
+         let off = hexv (List.nth f 2) and inode = List.nth f 4 in
+         (* the continuation of the previous area: same file, adjacent addresses, consecutive file offsets *)
+         if not (st = !prev_end && inode = !prev_inode && off = !prev_next_off) then incr n;
+         prev_end := en; prev_inode := inode; prev_next_off := off + (en - st)
+       end else (prev_end := 0; prev_inode := "")
      done with End_of_file -> ());
   close_in ic; !n
 
